@@ -1,6 +1,7 @@
 package chk
 
 import (
+	"sync"
 	"fmt"
 	"go/constant"
 	"go/token"
@@ -192,7 +193,7 @@ func lockRules() []*Rule {
 		{ID: "LOCK-3", Props: []string{"C06", "C08", "C07", "C09", "C15"}, Min: 1,
 			Doc: "Database.RLock marks the handle dirty on every path that can return nil",
 			Run: runLock3},
-		{ID: "PAGER", Props: []string{"C06", "C07", "C17"}, Min: 12,
+		{ID: "PAGER", Props: []string{"C06", "C07", "C17", "C19"}, Min: 12,
 			Doc: "unix pager: pending byte then shared range, both F_RDLCK via non-blocking F_SETLK, both errors returned, pending released by defer on all exits, readLock stored only after success; RUnlock unlocks the stored range and clears it; byte ranges equal SQLite's",
 			Run: runPager},
 		{ID: "PAGER-6", Props: []string{"C07", "C09"}, Min: 4,
@@ -713,8 +714,7 @@ func runPager(c *Ctx) {
 	p := c.P
 	rl := c.MustFunc("db", "(*filePager).RLock")
 	ru := c.MustFunc("db", "(*filePager).RUnlock")
-	lk := c.MustFunc("db", "(*filePager).lock")
-	if rl == nil || ru == nil || lk == nil {
+	if rl == nil || ru == nil {
 		return
 	}
 	fRDLCK, ok1 := unixConst(p, "F_RDLCK")
@@ -724,50 +724,82 @@ func runPager(c *Ctx) {
 		c.Undecided("unix constants", token.NoPos, "cannot resolve F_RDLCK/F_UNLCK/F_SETLK in golang.org/x/sys/unix")
 		return
 	}
-	// PAGER-5: lock uses non-blocking F_SETLK on the pager's own descriptor
-	{
-		n := 0
-		for _, cs := range callsIn(lk) {
+	runPagerPaths(c, rl, ru, fcntlWrappers(p), fRDLCK, fUNLCK, fSETLK)
+}
+
+// fcntlWrappers are the functions of package db that hand one of their parameters to unix.FcntlFlock (today
+// (*filePager).lock): the path rules walk them in place, so that a request is the fcntl call itself with the command, the
+// Flock_t and the error as they are there, whatever the wrapper is called and whatever else it takes.
+var fcntlWrapCache sync.Map
+
+func fcntlWrappers(p *Program) map[*ssa.Function]bool {
+	if m, ok := fcntlWrapCache.Load(p); ok {
+		return m.(map[*ssa.Function]bool)
+	}
+	out := map[*ssa.Function]bool{}
+	defer fcntlWrapCache.Store(p, out)
+	for _, fn := range p.ModFuncs() {
+		if p.PkgShort(fn) != "db" || fn.Parent() != nil {
+			continue
+		}
+		for _, cs := range callsIn(fn) {
 			callee := cs.Common().StaticCallee()
-			if callee == nil || !isLibFunc(callee, "golang.org/x/sys/unix", "FcntlFlock") {
+			if callee == nil || !isLibFunc(callee, "golang.org/x/sys/unix", "FcntlFlock") || len(cs.Common().Args) != 3 {
 				continue
 			}
-			n++
-			cmd, ok := constInt(cs.Common().Args[1])
-			c.Check(ok && cmd == fSETLK, "lock: fcntl command", cs.Pos(), "fcntl command is %d; SQLite readers must not block: expected F_SETLK=%d (F_SETLKW would wait for a writer instead of failing)", cmd, fSETLK)
-			c.Check(cs.Common().Args[2] == ssa.Value(lk.Params[1]), "lock: fcntl argument", cs.Pos(), "the Flock_t passed to fcntl is the caller's")
-		}
-		if n != 1 {
-			c.Undecided("lock: fcntl call", lk.Pos(), "expected exactly one unix.FcntlFlock call in (*filePager).lock, found %d", n)
-		}
-		for _, r := range returnsOf(lk) {
-			v := r.Results[0]
-			call, ok := v.(*ssa.Call)
-			c.Check(ok && call.Call.StaticCallee() != nil && isLibFunc(call.Call.StaticCallee(), "golang.org/x/sys/unix", "FcntlFlock"), "lock: returns fcntl error", r.Pos(), "lock returns the fcntl result unchanged")
+			if _, isParam := resolveCell(cs.Common().Args[2]).(*ssa.Parameter); isParam {
+				out[fn] = true
+			}
 		}
 	}
-	runPagerPaths(c, rl, ru, lk, fRDLCK, fUNLCK)
+	return out
 }
+
+// isFcntlWrapper: every return of fn hands back the error of a unix.FcntlFlock call on one of fn's parameters.
+func isFcntlWrapper(p *Program, fn *ssa.Function) bool {
+	if fn == nil || len(fn.Blocks) == 0 || !fcntlWrappers(p)[fn] {
+		return false
+	}
+	return true
+}
+
 
 // lockReq is one request made through (*filePager).lock on a path: the Flock_t's fields as they are when the call is
 // made (path-sensitive, through helpers, constructors and deferred functions), which struct it is, and the call.
 type lockReq struct {
 	typ, start, length, whence int64
+	cmd                         int64
 	haveRange                   bool
 	obj                         string // identity of the Flock_t
 	errTerm                     string
-	call                        ssa.Instruction
+	call                        posInstr
 }
 
-func pagerRequests(p *Program, fn, lk *ssa.Function) ([]*LPath, map[*LPath][]lockReq, *Termer, bool) {
+// posInstr is an instruction reported at another position (the call site of the helper it sits in).
+type posInstr struct {
+	ssa.Instruction
+	at token.Pos
+}
+
+func (p posInstr) Pos() token.Pos {
+	if p.at.IsValid() {
+		return p.at
+	}
+	return p.Instruction.Pos()
+}
+
+func pagerRequests(p *Program, fn *ssa.Function, wrappers map[*ssa.Function]bool) ([]*LPath, map[*LPath][]lockReq, *Termer, bool) {
 	t := &Termer{P: p}
 	base := callEvents(p)
-	paths, ok := EnumLits(fn.Blocks[0], 0, TabOpts{Termer: t, FieldCells: true, RunDefers: true, Limit: 100000,
+	paths, ok := EnumLits(fn.Blocks[0], 0, TabOpts{Termer: t, FieldCells: true, RunDefers: true, Limit: 100000, InlineAlso: wrappers,
 		EventOf: func(in ssa.Instruction, ps *pathState) (Event, bool) {
-			if call, isCall := in.(*ssa.Call); isCall && call.Call.StaticCallee() == lk && len(call.Call.Args) == 2 {
-				ptr := call.Call.Args[1]
-				ev := Event{Kind: "lockreq", Name: t.Term(call, ps)}
+			if call, isCall := in.(*ssa.Call); isCall && call.Call.StaticCallee() != nil && isLibFunc(call.Call.StaticCallee(), "golang.org/x/sys/unix", "FcntlFlock") && len(call.Call.Args) == 3 {
+				ptr := call.Call.Args[2]
+				ev := Event{Kind: "lockreq", Name: t.Term(call, ps), At: outerPos(ps, call)}
 				ev.Base = ps.fcKeyOf(ptr, "")
+				if k, ok := evalInt(call.Call.Args[1], ps); ok {
+					ev.Args = append(ev.Args, fmt.Sprintf("cmd=%d", k))
+				}
 				for _, f := range []string{"Type", "Start", "Len", "Whence"} {
 					if v, ok := ps.FieldConst(ptr, f); ok {
 						ev.Args = append(ev.Args, fmt.Sprintf("%s=%d", f, v))
@@ -783,7 +815,7 @@ func pagerRequests(p *Program, fn, lk *ssa.Function) ([]*LPath, map[*LPath][]loc
 			if e.Kind != "lockreq" {
 				continue
 			}
-			r := lockReq{obj: e.Base, errTerm: e.Name, call: e.Instr, typ: -1, start: -1, length: -1, whence: -1}
+			r := lockReq{obj: e.Base, errTerm: e.Name, call: posInstr{e.Instr, e.At}, typ: -1, start: -1, length: -1, whence: -1, cmd: -1}
 			for _, a := range e.Args {
 				var f string
 				var v int64
@@ -792,6 +824,8 @@ func pagerRequests(p *Program, fn, lk *ssa.Function) ([]*LPath, map[*LPath][]loc
 					fmt.Sscanf(a[i+1:], "%d", &v)
 				}
 				switch f {
+				case "cmd":
+					r.cmd = v
 				case "Type":
 					r.typ = v
 				case "Start":
@@ -809,12 +843,26 @@ func pagerRequests(p *Program, fn, lk *ssa.Function) ([]*LPath, map[*LPath][]loc
 	return paths, reqs, t, ok
 }
 
-func runPagerPaths(c *Ctx, rl, ru, lk *ssa.Function, fRDLCK, fUNLCK int64) {
+func runPagerPaths(c *Ctx, rl, ru *ssa.Function, lk map[*ssa.Function]bool, fRDLCK, fUNLCK, fSETLK int64) {
 	p := c.P
 	paths, reqs, t, ok := pagerRequests(p, rl, lk)
 	if !ok {
 		c.Undecided("RLock: paths", rl.Pos(), "too many paths")
 		return
+	}
+	// PAGER-5: every request of RLock and RUnlock is a non-blocking F_SETLK
+	cmdSeen := map[posInstr]bool{}
+	checkCmd := func(rs []lockReq) {
+		for _, r := range rs {
+			if cmdSeen[r.call] && r.cmd == fSETLK {
+				continue
+			}
+			cmdSeen[r.call] = true
+			c.Check(r.cmd == fSETLK, "lock: fcntl command", r.call.Pos(), "fcntl command is %d; SQLite readers must not block: expected F_SETLK=%d (F_SETLKW would wait for a writer instead of failing)", r.cmd, fSETLK)
+		}
+	}
+	for _, lp := range paths {
+		checkCmd(reqs[lp])
 	}
 	retIsNil := func(lp *LPath) bool {
 		v := lp.PS.Resolve(lp.Exit.Results[0])
@@ -906,6 +954,7 @@ func runPagerPaths(c *Ctx, rl, ru, lk *ssa.Function, fRDLCK, fUNLCK int64) {
 	}
 	nUn := 0
 	for _, lp := range upaths {
+		checkCmd(ureqs[lp])
 		if lp.Exit == nil || len(lp.Exit.Results) != 1 {
 			continue
 		}
